@@ -23,6 +23,8 @@ import time
 
 import numpy as np
 
+from ..core import CaseTimeout
+
 LEAN_TARGETS = ["YProofs.Props.C11"]
 LEVEL = "proof"
 TRANSLATORS = []
@@ -600,6 +602,8 @@ def eval_gate_case(ctx, case, forms, model_res=None):
     ref = sla.expm(-step * H)
     try:
         gate, pre = real_gate(ops, case)
+    except (CaseTimeout, MemoryError):
+        raise
     except Exception as e:  # every variant generated here is a valid input of a public constructor
         ctx.fail("oracle", f"c11:gate-raises:{kind}", f"{tag}: constructor raised {type(e).__name__}: {e}", case=case, concrete=True)
         return
@@ -677,6 +681,8 @@ def check_eigh_contract(ctx, ops, case, H, nsites):
         ctx.count("contract:eigh")
         if not (e1 <= 1e-10 and e2 <= 1e-10 and e3 <= 1e-12):
             ctx.fail("contract", "c11:eigh-contract", f"eigh contract fails: |U D U^+ - H|={e1:.2e}, |U^+U-1|={e2:.2e}, |Im D|={e3:.2e}", case=case)
+    except (CaseTimeout, MemoryError):
+        raise
     except Exception as e:
         ctx.fail("contract", "c11:eigh-contract", f"eigh contract could not be evaluated: {type(e).__name__}: {e}", case=case)
 
@@ -693,12 +699,14 @@ def check_svd_contract(ctx, ops, case, pre, gate):
         ctx.count("contract:svd")
         if not e <= 1e-10:
             ctx.fail("contract", "c11:svd-contract", f"SVD contract G = U S V fails with relative error {e:.2e}", case=case)
+    except (CaseTimeout, MemoryError):
+        raise
     except Exception as e:
         ctx.fail("contract", "c11:svd-contract", f"SVD contract could not be evaluated: {type(e).__name__}: {e}", case=case)
 
 
 def part_gates(ctx, forms):
-    from ..core import time_limit, CaseTimeout
+    from ..core import time_limit
     rng = ctx.rng
     variants = gate_variants()
     modes = ["real", "imag", "complex", "zero"]
@@ -726,8 +734,8 @@ def part_gates(ctx, forms):
         try:
             with time_limit(20):
                 eval_gate_case(ctx, case, forms, model_res.get(i))
-        except CaseTimeout:
-            ctx.notes.append(f"gate case timed out (not counted): {case['kind']} {case['cls']} {case['sym']}")
+        except (CaseTimeout, MemoryError) as e:
+            ctx.count(f"infrastructure:{type(e).__name__}")
 
 
 # ----------------------------------------------------------------------------------------------
@@ -1004,6 +1012,40 @@ def peps_dense(psi, ops):
     return A.reshape((d,) * N + (-1,))
 
 
+def growth_ok(psi, geo, gate, d):
+    """resource guard (not an observable): predicted tensor sizes after the gate, and the largest intermediate of
+    to_tensor's column-by-column contraction, stay small enough."""
+    from yastn.tn.mps import MpsMpoOBC
+    path = [tuple(s) for s in gate.sites]
+    if len(path) == 1:
+        return True
+    nb = len(path) - 1
+    if isinstance(gate.G, MpsMpoOBC):
+        rs = [gate.G[n].get_shape(axes=2) for n in range(nb)]
+    elif len(gate.G) == 2:
+        rs = [gate.G[0].get_shape(axes=2)] * nb
+    else:
+        rs = [gate.G[j].get_shape(axes=gate.G[j].ndim - 1) for j in range(nb)]
+    shp = {tuple(s): list(psi[s].get_shape()) for s in geo.sites()}
+    legs = {"lr": (3, 1), "rl": (1, 3), "tb": (2, 0), "bt": (0, 2)}
+    for (a, b), r in zip(zip(path, path[1:]), rs):
+        la, lb = legs[geo.nn_bond_dirn(a, b)]
+        shp[a][la] *= r
+        shp[b][lb] *= r
+    if max(int(np.prod(v)) for v in shp.values()) > 1e6:
+        return False
+    Nx, Ny = geo.Nx, geo.Ny
+    cost, P = 0, 1
+    for y in range(Ny):
+        for x in range(Nx):
+            P *= shp[(x, y)][4]
+            right_new = int(np.prod([shp[(xx, y)][3] for xx in range(x + 1)]))
+            left_old = int(np.prod([shp[(xx, y)][1] for xx in range(x + 1, Nx)]))
+            vert = shp[(0, y)][0] * shp[(x, y)][2]
+            cost = max(cost, P * right_new * left_old * vert)
+    return cost <= 3e6
+
+
 def exec_circuit(ctx, prog, want_state=False):
     """runs a circuit on the real code and on the dense reference; reports the first failing gate."""
     cls, sym = prog["cls"], prog["sym"]
@@ -1016,6 +1058,8 @@ def exec_circuit(ctx, prog, want_state=False):
     tag = f"{cls}:{sym}:{prog['dims'][0]}x{prog['dims'][1]}:{prog['boundary']}:{prog['mode']}"
     try:
         v = peps_dense(psi, ops)
+    except (CaseTimeout, MemoryError):
+        raise
     except Exception as e:
         ctx.fail("oracle", "c11:to_tensor-raises", f"{tag}: to_tensor of the initial state raised {type(e).__name__}: {e}", case=prog, concrete=True)
         return None
@@ -1034,6 +1078,8 @@ def exec_circuit(ctx, prog, want_state=False):
     for gi, g in enumerate(prog["gates"]):
         try:
             gate, M, acting = build_gate(ops, alg, cls, sym, g)
+        except (CaseTimeout, MemoryError):
+            raise
         except Exception as e:
             # building a predefined gate is part (i); MPO generation is C07. Skip, but leave a trace.
             ctx.count(f"apply:gate-build-skipped:{g['g']}:{type(e).__name__}")
@@ -1042,13 +1088,18 @@ def exec_circuit(ctx, prog, want_state=False):
             ctx.count("apply:mpo-generator-mismatch-skipped")
             continue
         path = [tuple(s) for s in g["sites"]]
+        sub = dict(prog, gates=prog["gates"][:gi + 1])
+        if not growth_ok(psi, geo, gate, d):
+            ctx.count("apply:circuit-stopped-bond-dimension")
+            break
         for s0, s1 in zip(path, path[1:]):
             ctx.count(f"apply:bond:{geo.nn_bond_dirn(s0, s1)}:{'f-ordered' if geo.f_ordered(s0, s1) else 'f-reversed'}")
         ctx.count(f"apply:gate:{g['g']}:{len(path)}-site")
-        sub = dict(prog, gates=prog["gates"][:gi + 1])
         try:
             psi.apply_gate_(gate)
             w = peps_dense(psi, ops)
+        except (CaseTimeout, MemoryError):
+            raise
         except Exception as e:
             ctx.fail("oracle", "c11:apply-raises", f"{tag}: apply_gate_/to_tensor raised {type(e).__name__}: {e} at gate {gi} {g['g']} on {path}", case=sub, concrete=True)
             return None
@@ -1104,7 +1155,7 @@ def circuit_plan(ctx):
 
 
 def part_apply(ctx, budget):
-    from ..core import time_limit, CaseTimeout
+    from ..core import time_limit
     rng = ctx.rng
     t0 = time.time()
     plan = circuit_plan(ctx)
@@ -1121,8 +1172,8 @@ def part_apply(ctx, budget):
         try:
             with time_limit(30):
                 exec_circuit(ctx, prog)
-        except CaseTimeout:
-            ctx.notes.append(f"circuit timed out (not counted): {cls} {sym} {dims} {boundary} {mode}")
+        except (CaseTimeout, MemoryError) as e:
+            ctx.count(f"infrastructure:{type(e).__name__}")
         done += 1
     ctx.count("apply:circuits", done)
 
@@ -1242,6 +1293,8 @@ def eval_double_case(ctx, case):
                 else:
                     got = T1.tensordot(t, axes=(axa, axb))
                     ref = r1.tensordot(t, axes=(axa, axb))
+            except (CaseTimeout, MemoryError):
+                raise
             except Exception as e:
                 ctx.fail("oracle", "c11:double:raises", f"{tag}: tensordot {order} axes {axa},{axb} raised {type(e).__name__}: {e}", case=case, concrete=True)
                 return
@@ -1249,7 +1302,9 @@ def eval_double_case(ctx, case):
             nr = max(1.0, float(ref.norm()))
             try:
                 err = float((got - ref).norm()) / nr
-            except Exception as e:
+            except (CaseTimeout, MemoryError):
+                raise
+            except Exception:
                 err = float("inf")
             ctx.extra["max_err_double"] = max(ctx.extra.get("max_err_double", 0.0), err if np.isfinite(err) else 1e300)
             if not err <= TOL_DOUBLE:
@@ -1260,7 +1315,7 @@ def eval_double_case(ctx, case):
 
 
 def part_double(ctx):
-    from ..core import time_limit, CaseTimeout
+    from ..core import time_limit
     rng = ctx.rng
     n = 30 if ctx.quick else 400
     for _ in range(n):
@@ -1269,8 +1324,8 @@ def part_double(ctx):
         try:
             with time_limit(20):
                 eval_double_case(ctx, case)
-        except CaseTimeout:
-            ctx.notes.append("double-layer case timed out (not counted)")
+        except (CaseTimeout, MemoryError) as e:
+            ctx.count(f"infrastructure:{type(e).__name__}")
 
 
 # ----------------------------------------------------------------------------------------------
@@ -1296,6 +1351,8 @@ def eval_add_case(ctx, case):
         else:
             tot = fpeps.add(*[s[0] for s in states], amplitudes=amps)
         got = peps_dense(tot, ops)
+    except (CaseTimeout, MemoryError):
+        raise
     except Exception as e:
         ctx.fail("oracle", "c11:add-raises", f"{tag}: add/to_tensor raised {type(e).__name__}: {e}", case=case, concrete=True)
         return
@@ -1309,7 +1366,7 @@ def eval_add_case(ctx, case):
 
 
 def part_add(ctx):
-    from ..core import time_limit, CaseTimeout
+    from ..core import time_limit
     rng = ctx.rng
     n = 14 if ctx.quick else 120
     combos = [("spinless", "Z2"), ("spinless", "U1"), ("spin12", "Z2"), ("spin12", "dense"), ("spinful", "U1xU1xZ2"), ("tJ", "U1")]
@@ -1339,8 +1396,8 @@ def part_add(ctx):
         try:
             with time_limit(40):
                 eval_add_case(ctx, case)
-        except CaseTimeout:
-            ctx.notes.append("add case timed out (not counted)")
+        except (CaseTimeout, MemoryError) as e:
+            ctx.count(f"infrastructure:{type(e).__name__}")
 
 
 # ----------------------------------------------------------------------------------------------
